@@ -1,11 +1,11 @@
 #!/bin/sh
 # usage: tools/run_all.sh [tier] [seed]  — runs every registered check on the current tree, one line per check
 tier="${1:-quick}"; seed="${2:-1}"
-cd /verif || exit 2
+cd "$(dirname "$0")/.." || exit 2
 export GOFLAGS=-mod=mod GOPROXY=off GOSUMDB=off GOTOOLCHAIN=local VERIF_SEED="$seed"
 for id in C01 C02 C03 C04 C05 C06 C07 C08 C09 C10 C11 C12 C13 C14 C15 C16 C17 C18 C19 C20; do
   t0=$(date +%s)
-  ./check "$id" --tier "$tier" > /tmp/runall_$id.log 2>&1; rc=$?
+  ./check "$id" --tier "$tier" > /tmp/runall_${tier}_${seed}_$id.log 2>&1; rc=$?
   t1=$(date +%s)
-  echo "$id rc=$rc $((t1-t0))s $(grep -c KNOWN-FINDING /tmp/runall_$id.log) known | $(grep -E 'VIOLATION|OK:' /tmp/runall_$id.log | tail -1 | cut -c1-160)"
+  echo "$id rc=$rc $((t1-t0))s $(grep -c KNOWN-FINDING /tmp/runall_${tier}_${seed}_$id.log) known | $(grep -E 'VIOLATION|OK:' /tmp/runall_${tier}_${seed}_$id.log | tail -1 | cut -c1-160)"
 done
